@@ -258,7 +258,7 @@ func c19RoundTrip(t *rapid.T) {
 			pool = append(pool, fmt.Sprintf("w%d", i))
 		}
 	}
-	base := hx.GenTable(t, hx.TableOpt{MinCols: 1, MaxCols: maxCols, AllowDerived: true, Wide: true, Rows: rapid.IntRange(1, 25)})
+	base := hx.GenTable(t, hx.TableOpt{MinCols: 1, MaxCols: maxCols, AllowDerived: true, Wide: true, Rows: rapid.OneOf(rapid.IntRange(1, 25), rapid.IntRange(1, 25), rapid.IntRange(1, 25), rapid.IntRange(1, 25), rapid.IntRange(1, 25), rapid.IntRange(95, 210))})
 	if maxCols > 5 {
 		target := rapid.IntRange(10, 14).Draw(t, "widecols")
 		for len(base.Cols) < target {
